@@ -34,6 +34,7 @@ m("C16_lock_read_regardless", "C16", C, "        if !config.use_cache\n        {
 m("C16_corrupt_lock_to_one", "C16", C, "                    log::warn!(\n                        \"[ref: 31] Failed to parse lock file {}: {}\",\n                        Context::CACHE_FILENAME,\n                        e\n                    );\n                    Ok(None)",
   "                    log::warn!(\n                        \"[ref: 31] Failed to parse lock file {}: {}\",\n                        Context::CACHE_FILENAME,\n                        e\n                    );\n                    Ok(Some(1))")
 m("C17_abort_on_unreadable", "C17", G, "            if let Some(file_contents) = load_code(&path).await\n            {", "            let loaded = load_code(&path).await;\n            if loaded.is_none() { return None; }\n            if let Some(file_contents) = loaded\n            {")
+m("C17_unreadable_file_silently_skipped", "C17", G, "                error!(\"[ref: 4] Failed to read file {}: {}\", path_copy, e);", "                let _ = (&path_copy, &e);")
 m("C18_flag_not_polled", "C18", G, "            if stop_flag.load(std::sync::atomic::Ordering::Relaxed)\n            {\n                return None;\n            }\n\n            let path = file.path.clone();",
   "            let path = file.path.clone();")
 m("C18_only_sigint", "C18", MAIN, "for signal in [signal_hook::consts::SIGTERM, signal_hook::consts::SIGINT]", "for signal in [signal_hook::consts::SIGINT]")
